@@ -126,11 +126,15 @@ class Latest(Selector):
                 instances = tuple(self._cache.items())
             LOGGER.debug('Refreshing %d cached instances', len(instances))
             for registry, old in instances:
-                new = self._pick(registry)
-                if new != old:
-                    LOGGER.info('Updating latest instance to %s', new)
-                    with self._lock:
-                        self._cache[registry] = new
+                try:
+                    new = self._pick(registry)
+                    if new == old:
+                        continue
+                except assetmod.Level.Listing.Empty:  # no generation to compare yet
+                    continue
+                LOGGER.info('Updating latest instance to %s', new)
+                with self._lock:
+                    self._cache[registry] = new
             time.sleep(self._interval)
 
     def _pick(self, registry: 'asset.Directory') -> 'asset.Instance':
